@@ -4,6 +4,7 @@ import CnvVerif.Driver.Call
 import CnvVerif.Driver.CallCmd
 import CnvVerif.Driver.SegFilter
 import CnvVerif.Driver.SegFilterExt
+import CnvVerif.Driver.SegFilterExt5
 import CnvVerif.Driver.Tile
 import CnvVerif.Driver.Center
 import CnvVerif.Driver.SexExt
@@ -33,7 +34,7 @@ import CnvVerif.Driver.RangesExt
 open Lean CnvVerif.Drv
 
 def handlers : List (String → Json → Option Json → R (Option Json)) :=
-  [handleInterval, handleRangesExt, handleCall, handleCallCmd, handleSegFilter, handleSegFilterExt, handleTile, handleCenter, handleSexExt, handleFix, handleAccess, Genes.handleGenes, handleFormats, handleFormatsExt, handleExport, handleExportExt, C20Ci.handleExportCi, Reference.handleReference, handleCoverage, handleCoverageExt, handleEffects, handleEffectsExt, handleBins, handleVcf, handleVcfExt, handleDescriptives, Haar.handleHaar, HaarExt.handleHaarExt, handleStats, handleStatsGlue, handleStatsExt5]
+  [handleInterval, handleRangesExt, handleCall, handleCallCmd, handleSegFilter, handleSegFilterExt, handleTile, handleCenter, handleSexExt, handleFix, handleAccess, Genes.handleGenes, handleFormats, handleFormatsExt, handleExport, handleExportExt, C20Ci.handleExportCi, Reference.handleReference, handleCoverage, handleCoverageExt, handleEffects, handleEffectsExt, handleBins, handleVcf, handleVcfExt, handleDescriptives, Haar.handleHaar, HaarExt.handleHaarExt, handleStats, handleStatsGlue, handleStatsExt5, handleSegFilterExt5]
 
 def dispatch (op : String) (inp : Json) (impl : Option Json) : R Json := do
   for h in handlers do
